@@ -81,7 +81,6 @@ class Channel0(object):
         :param specification.Connection.Close frame_in: Amqp frame.
         :return:
         """
-        self._set_connection_state(Stateful.CLOSED)
         if frame_in.reply_code != 200:
             reply_text = try_utf8_decode(frame_in.reply_text)
             message = (
@@ -90,6 +89,7 @@ class Channel0(object):
             exception = AMQPConnectionError(message,
                                             reply_code=frame_in.reply_code)
             self._connection.exceptions.append(exception)
+        self._set_connection_state(Stateful.CLOSED)
 
     def _close_connection_ok(self):
         """Connection CloseOk frame received.
